@@ -978,3 +978,8 @@ const (
 	kindForLoop   = cfg.KindForLoop
 	kindForBody   = cfg.KindForBody
 )
+
+const (
+	kindRangeBody = cfg.KindRangeBody
+	kindRangeDone = cfg.KindRangeDone
+)
